@@ -17,6 +17,11 @@ from ..topo import REF, KIND_OF_CLASS
 from . import c10
 
 ID = 'C06'
+# sub-checks added after the seeded-change waves (DESIGN.md sections 5 and 6)
+EXTENSIONS = [
+    'enforce pipeline, dict-of-views Dirichlet sets, anisotropic problem written with helpers.mul, complex projections',
+    'unsorted kept set without expansion, complex-valued data with the real matrix, vector elements with edge and facet DOFs, split solution components; singular splits on disconnected meshes are not legal inputs',
+]
 LEVEL = 'exploration'
 TECHNIQUE = "small-scope exhaustive enumeration (meshes x elements x all monomial solutions x boundary splits / all unit vectors x regions) with exact-reproduction oracle"
 LEVEL_TEXT = ("Patch test: irregular affine-cell meshes of every cell type (plain, renumbered, graded by adaptive refinement, mirrored) "
